@@ -54,6 +54,7 @@ class Gen:
         self.build = True          # construct the Python objects (False: descriptors only, for wire images)
         self.flag_mode = "mp"      # "mp": M/P overrides; "all": any flag byte consistent with the V bit
         self.override = 0.2
+        self.generic_unknown_only = False   # generic AVPs only with codes no dictionary class uses
 
     # ---------------------------------------------------------------- values
     def rbytes(self, n):
@@ -157,10 +158,12 @@ class Gen:
         self.hit(name, row["kind"])
         return obj, ["D", name, fl] + toks
 
-    def generic(self):
+    def generic(self, unknown_only=False):
         r = self.rng
         vendor = None if r.random() < 0.5 else r.choice([0, 1, 10415, 13019, 2 ** 32 - 1, r.randrange(2 ** 32)])
         code = r.choice([0, 1, 263, 264, 999999, 2 ** 32 - 1, r.randrange(2 ** 32)])
+        if unknown_only or self.generic_unknown_only:
+            code = r.choice([0, 999999, 2 ** 32 - 1, 77777])
         flags = (0x80 if vendor is not None else 0) | r.choice([0, 0x20, 0x40, 0x60, 0x1f & r.randrange(256)])
         n = r.choice([0, 1, 2, 3, 4, 5, 6, 7, 8, 9, 15, 16, 17, 40])
         data = self.rbytes(n)
